@@ -97,7 +97,15 @@ func execStale(c StaleCase) (res vt.Result) {
 		}
 		cleanup()
 	}()
+	readerStraddled := false // (see below, where the first batch is held)
 	fail := func(f string, a ...any) vt.Result {
+		if readerStraddled {
+			// whatever goes wrong after a search has straddled the first batch's commit is what the catalogued
+			// finding D5 (C09) describes; this job judges the schedules in which no search does
+			rec.Known("D5", "stalereplacement: after a search that straddled the first batch's commit", fmt.Sprintf(f, a...))
+			rec.Count("cases_attributed_to_D5_search_straddled_the_commit", 1)
+			return vt.Result{}
+		}
 		res.Err = fmt.Errorf("%s index, cache limit %d, %d points stored, first batch of %d held at %s, second batch %s (in the gap: %v): %s", c.Index, maxSize, c.Pre, c.N1, c.Pause, c.Third, c.Gap, fmt.Sprintf(f, a...))
 		return res
 	}
@@ -214,7 +222,6 @@ func execStale(c StaleCase) (res vt.Result) {
 	// the batch's commit. A search that straddles a commit can leave a cache built from its old snapshot
 	// registered as the shared cache - the known finding D5 (C09), which the next batch then builds on. What
 	// this job demands of the cache manager is demanded of searches that end before the batch goes on
-	readerStraddled := false
 	if held {
 		rec.Count("first_batch_held_inside_its_storage_transaction", 1)
 		// (a search on any shard of the node may have to wait for a batch that is held inside a flush: the
@@ -256,9 +263,22 @@ func execStale(c StaleCase) (res vt.Result) {
 				}
 				rd <- err
 			}()
+			// d5: a search that straddles the batch's commit fails (or answers) as the catalogued finding D5
+			// describes; that is C09's known finding, not a verdict on the cache manager
+			d5 := func(err error) vt.Result {
+				release(putGo)
+				release(gapGo)
+				<-firstDone
+				rec.Known("D5", "stalereplacement: a search that straddles the first batch's commit fails on the shared cache", err.Error())
+				rec.Count("cases_attributed_to_D5_search_straddled_the_commit", 1)
+				return vt.Result{}
+			}
 			select {
 			case err := <-rd:
 				if err != nil {
+					if readerStraddled {
+						return d5(err)
+					}
 					release(putGo)
 					release(gapGo)
 					<-firstDone
@@ -270,9 +290,7 @@ func execStale(c StaleCase) (res vt.Result) {
 				readerStraddled = true
 				release(putGo)
 				if err := <-rd; err != nil {
-					release(gapGo)
-					<-firstDone
-					return fail("%v", err)
+					return d5(err)
 				}
 				rec.Count("searches_that_waited_for_the_held_batch", 1)
 			}
